@@ -13,9 +13,6 @@ open ImathVerif Matrix
 section More
 variable {α : Type} [Field α] [LinearOrder α] [IsStrictOrderedRing α]
 
-/-- `Vec3::normalize()` (in place): unchanged when the length is zero -/
-def nrmIP (len : V3 α → α) (v : V3 α) : V3 α := if len v = 0 then v else ⟨v.x / len v, v.y / len v, v.z / len v⟩
-
 theorem nrmIP_eq_nrm {len : V3 α → α} (hlen : LenSpec len) (v : V3 α) : nrmIP len v = nrm len v := by
   unfold nrmIP nrm
   split_ifs with h
@@ -64,21 +61,6 @@ theorem nrm_of_unit {len : V3 α → α} (hlen : LenSpec len) {v : V3 α} (h : d
   rw [nrm_eq_smul (by rw [h1]; exact one_ne_zero), h1, inv_one, one_smul']
 
 /-! ### computeLocalFrame -/
-
-def computeLocalFrameSpec (len : V3 α → α) (p xDir normal : V3 α) : M44 α :=
-  let x := nrmIP len xDir
-  let y := nrmIP len (cross normal x)
-  let z := nrmIP len (cross x y)
-  frameM44 x y z p
-
-theorem computeLocalFrame_eq_spec (tmin : α) (sqrt : α → α) (p xDir normal : V3 α) :
-    Gen.Frame.computeLocalFrame tmin sqrt p xDir normal = computeLocalFrameSpec (Gen.V3.length tmin sqrt) p xDir normal := by
-  obtain ⟨px, py, pz⟩ := p
-  obtain ⟨xx, xy, xz⟩ := xDir
-  obtain ⟨nx, ny, nz⟩ := normal
-  simp only [Gen.Frame.computeLocalFrame, computeLocalFrameSpec, nrmIP, cross, frameM44]
-  generalize Gen.V3.length tmin sqrt = len
-  tree_eq
 
 /-- `xDir ≠ 0`, `normal ∦ xDir`: orthonormal right-handed frame at `p`, x-axis along `xDir`, y-axis ⟂ `normal`;
 and the z-axis is along `normal` when `normal ⟂ xDir` (documented) -/
@@ -129,31 +111,6 @@ theorem sabs_eq_abs (x : α) : sabs x = |x| := by
   split_ifs with h
   · rw [abs_of_pos h]
   · rw [abs_of_nonpos (not_lt.mp h)]
-
-/-- the coordinate direction chosen by `firstFrame` when the three points are collinear: the axis along which the
-tangent has its smallest component -/
-def ffAxis (t : V3 α) : V3 α :=
-  if sabs t.x < sabs t.y then (if sabs t.z < sabs t.x then ⟨0, 0, 1⟩ else ⟨1, 0, 0⟩)
-  else (if sabs t.z < sabs t.y then ⟨0, 0, 1⟩ else ⟨0, 1, 0⟩)
-
-def firstFrameSpec (len : V3 α → α) (pi pj pk : V3 α) : Except Exc (M44 α) :=
-  let d := vsub pj pi
-  if len d = 0 then .error Exc.domainError
-  else
-    let t : V3 α := ⟨d.x / len d, d.y / len d, d.z / len d⟩
-    let n0 := nrmIP len (cross t (vsub pk pi))
-    let n := if len n0 = 0 then nrmIP len (cross t (ffAxis t)) else n0
-    .ok (frameM44 t n (cross t n) pi)
-
-theorem firstFrame_eq_spec (tmin : α) (sqrt : α → α) (pi pj pk : V3 α) :
-    Gen.Frame.firstFrame tmin sqrt pi pj pk = firstFrameSpec (Gen.V3.length tmin sqrt) pi pj pk := by
-  obtain ⟨ix, iy, iz⟩ := pi
-  obtain ⟨jx, jy, jz⟩ := pj
-  obtain ⟨kx, ky, kz⟩ := pk
-  simp only [Gen.Frame.firstFrame, firstFrameSpec, nrmIP, ffAxis, cross, vsub, frameM44]
-  generalize Gen.V3.length tmin sqrt = len
-  simp only [mul_zero, zero_mul, mul_one, one_mul, sub_zero, zero_sub, sub_self, zero_div]
-  tree_eq
 
 /-- frame with unit tangent `t`, unit normal `n ⟂ t`, binormal `t × n` -/
 theorem isRot_tnb {t n : V3 α} (ht : dot t t = 1) (hn : dot n n = 1) (htn : dot t n = 0) :
@@ -239,20 +196,6 @@ theorem firstFrameSpec_collinear {len : V3 α → α} (hlen : LenSpec len) {pi p
     rw [rot3_frameM44]; exact isRot_tnb hut hun htn
 
 /-! ### rotationMatrixWithUpDir -/
-
-/-- `rotationMatrixWithUpDir`: identity for a zero `fromDir`, else `alignZ(fromDir, ŷ)ᵀ * alignZ(toDir, upDir)` -/
-theorem rotationMatrixWithUpDir_eq (tmin : α) (sqrt : α → α) (f t u : V3 α) :
-    (Gen.Frame.rotationMatrixWithUpDir tmin sqrt f t u).toMat =
-      if Gen.V3.length tmin sqrt f = 0 then 1
-      else (Gen.Frame.alignZAxisWithTargetDir tmin sqrt f ⟨0, 1, 0⟩).toMatᵀ * (Gen.Frame.alignZAxisWithTargetDir tmin sqrt t u).toMat := by
-  obtain ⟨fx, fy, fz⟩ := f
-  obtain ⟨tx, ty, tz⟩ := t
-  obtain ⟨ux, uy, uz⟩ := u
-  simp only [Gen.Frame.rotationMatrixWithUpDir]
-  split_ifs with h
-  · ext i j; fin_cases i <;> fin_cases j <;> simp [M44.toMat]
-  · ext i j; fin_cases i <;> fin_cases j <;>
-      simp [M44.toMat, Matrix.mul_apply, Fin.sum_univ_four]
 
 /-- 3×3 block and affine part of `Aᵀ * B` for frames `A`, `B` without translation -/
 theorem isFrame_transpose_mul {a b c : M44 α} (ha : IsFrame a) (ha3 : row3 a = ⟨0, 0, 0⟩) (hb : IsFrame b) (hb3 : row3 b = ⟨0, 0, 0⟩)
